@@ -88,9 +88,54 @@ def logic_vocab(t: Term) -> set:
     return {v for v in vocabulary(t) if not v.startswith("const:")}
 
 
-def check_skeleton(ctx: Ctx, rule: str, fi: FuncInfo, specs: Sequence[str], what: str, inline_cls: Optional[str] = None) -> bool:
-    """Compare; record ok / violation; raise AnalysisError when undecidable."""
+def reaches_call(repo: Repo, fi: FuncInfo, name: str, depth: int = 3, seen=None) -> bool:
+    """Does ``fi`` (transitively, through exactly resolved in-repo callees) call something named ``name``?"""
+    import ast as _ast
+
+    from .core import call_name, walk_no_nested
+
+    seen = seen if seen is not None else set()
+    if fi.where in seen or depth < 0:
+        return False
+    seen.add(fi.where)
+    for node in _ast.walk(fi.node):
+        if isinstance(node, _ast.Call):
+            cn = call_name(node)
+            if cn and cn[-1] == name:
+                return True
+        if isinstance(node, _ast.Attribute) and node.attr == name:
+            return True
+    for node in _ast.walk(fi.node):
+        if isinstance(node, _ast.Call):
+            cands, exact = repo.resolve_call(fi, node)
+            if exact:
+                for c in cands:
+                    if reaches_call(repo, c, name, depth - 1, seen):
+                        return True
+    return False
+
+
+def check_skeleton(ctx: Ctx, rule: str, fi: FuncInfo, specs: Sequence[str], what: str, inline_cls: Optional[str] = None, required_calls: Sequence[str] = ()) -> bool:
+    """Compare; record ok / violation; raise AnalysisError when undecidable.
+    ``required_calls``: functions the property says must be consulted; if one is not even reachable
+    from ``fi`` the implementation cannot be the required computation (violation, not unknown)."""
     impl = func_term(fi)
+    voc = vocabulary(impl)
+
+    def reachable_from_term(name: str) -> bool:
+        # the required function may be consulted inside a helper that the *returned value* calls
+        for v in voc:
+            if v.startswith("call:"):
+                helper = v[5:]
+                for cand in ctx.repo.all_funcs():
+                    if cand.name == helper and cand is not fi and reaches_call(ctx.repo, cand, name):
+                        return True
+        return False
+
+    missing = [c for c in required_calls if f"call:{c}" not in voc and f"attr:{c}" not in voc and not reachable_from_term(c)]
+    if missing:
+        ctx.violation(rule, fi, fi.node, f"{what}: the implementation never consults {', '.join(missing)}  (it computes {show(impl)[:160]})")
+        return False
     spec_terms = [spec_from_src(s) for s in specs]
     if impl in spec_terms:
         ctx.ok(rule, fi.where, f"{what}: {show(impl)}", fi.node, fi)
